@@ -51,6 +51,9 @@ func (c *Ctx) idSpec() *Spec {
 			if pk == nil || !strings.HasSuffix(pk.Pkg.Path(), "/internal/logging") {
 				return false
 			}
+			if callee == c.idGenerator() {
+				return false
+			}
 			switch callee.Name() {
 			case "generateIdentifier", "RequestHeaderName", "TraceHeaderName", "L", "WithContext", "enrichLogger", "contextWithLogger":
 				return false
@@ -82,6 +85,10 @@ func checkC16(c *Ctx) {
 				inner = cl
 			}
 		}
+	}
+	genName := "generateIdentifier"
+	if g := c.idGenerator(); g != nil {
+		genName = g.Name()
 	}
 	const nameFn = "call:github.com/0xReLogic/Helios/internal/logging."
 	isHdr := func(it Item) bool {
@@ -154,12 +161,12 @@ func checkC16(c *Ctx) {
 						return "generated identifier is not placed on the request under the configured name"
 					}
 					v := req[0].Label[strings.LastIndex(req[0].Label, ")=")+2:]
-					if !strings.Contains(rv, v) && !strings.Contains(v, "generateIdentifier") {
+					if !strings.Contains(rv, v) && !strings.Contains(v, genName) {
 						return "request and response receive different generated values"
 					}
 				}
 				// the response value is the (phi of) trimmed supplied value and generated value
-				if !strings.Contains(rv, "strings.TrimSpace(") || !strings.Contains(rv, "generateIdentifier(") {
+				if !strings.Contains(rv, "strings.TrimSpace(") || !strings.Contains(rv, genName+"(") {
 					return "response value is not the trimmed supplied identifier / the generated identifier: " + rv
 				}
 				// same SSA value on both sides on the generated path
@@ -212,7 +219,7 @@ func checkC16(c *Ctx) {
 			return ""
 		})
 	// generator
-	gen := p.Fn("internal/logging", "", "generateIdentifier")
+	gen := c.idGenerator()
 	if gen == nil {
 		c.Missing("identifier-entropy", "logging.generateIdentifier")
 	} else {
@@ -326,7 +333,7 @@ func (c *Ctx) idHeadersSurvive() {
 func (c *Ctx) outermostMiddleware() {
 	p := c.P
 
-	bh := p.Fn("cmd/helios", "", "buildHandler")
+	bh := c.handlerBuilder()
 	construct := "cmd/helios.buildHandler"
 	if bh == nil {
 		c.Missing("context-middleware-outermost", construct)
@@ -426,7 +433,7 @@ func checkC17(c *Ctx) {
 	// loop shape / order
 	c.chainOrder(bc)
 	// propagation: buildHandler and main
-	bh := p.Fn("cmd/helios", "", "buildHandler")
+	bh := c.handlerBuilder()
 	spB := c.handlerSpec("BuildChain")
 	c.traceRule("startup-propagates-error", "cmd/helios.buildHandler", bh, spB, "a BuildChain error is returned to the caller",
 		func(t *Trace) string {
@@ -714,7 +721,48 @@ func (c *Ctx) mainFatal() {
 		c.Missing("startup-all-or-nothing", "cmd/helios.main")
 		return
 	}
-	steps := []string{"config.LoadConfig", "loadbalancer.NewLoadBalancer", "helios.buildHandler", "helios.validateTLSFiles"}
+	// the fallible start-up steps: every call in main to a Helios function whose last result is an
+	// error (LoadConfig, NewLoadBalancer, the handler builder, the TLS file check, …) — discovered
+	var steps []string
+	short := map[string]string{}
+	for _, ci := range callsIn(mainFn) {
+		f := StaticFn(ci)
+		if f == nil || !p.IsHelios(f) {
+			continue
+		}
+		rs := f.Signature.Results()
+		if rs.Len() == 0 || rs.At(rs.Len()-1).Type().String() != "error" {
+			continue
+		}
+		full := f.String()
+		if f.Signature.Recv() == nil {
+			full = f.Pkg.Pkg.Path()[strings.LastIndex(f.Pkg.Pkg.Path(), "/")+1:] + "." + f.Name()
+		}
+		steps = append(steps, full)
+		short[full] = f.Name()
+	}
+	steps = uniqueStrings(steps)
+	// what starts serving: the functions of the command that (directly or in a goroutine) call
+	// ListenAndServe / ListenAndServeTLS on the main server, and the function that builds that server
+	starters := map[*ssa.Function]bool{}
+	for _, fn := range p.Funcs {
+		if pk := fnPkg(fn); pk == nil || !strings.HasSuffix(pk.Pkg.Path(), "/cmd/helios") {
+			continue
+		}
+		for _, ci := range callsIn(fn) {
+			// the proxy's own listener is the one that can serve TLS (the metrics and admin listeners cannot)
+			if n := CalleeName(ci); n == "(*net/http.Server).ListenAndServeTLS" {
+				starters[outermost(fn)] = true
+			}
+		}
+	}
+	isStart := func(ci ssa.CallInstruction) bool {
+		if f := StaticFn(ci); f != nil && starters[f] && f != mainFn {
+			return true
+		}
+		n := CalleeName(ci)
+		return starters[mainFn] && n == "(*net/http.Server).ListenAndServeTLS"
+	}
 	sp := &Spec{
 		Event: func(in ssa.Instruction, fr *Frame) string {
 			ci, ok := in.(ssa.CallInstruction)
@@ -725,8 +773,19 @@ func (c *Ctx) mainFatal() {
 			switch {
 			case n == "(*github.com/rs/zerolog.Logger).Fatal":
 				return "fatal"
-			case strings.HasSuffix(n, "helios.startHTTPServer"), strings.HasSuffix(n, "helios.createHTTPServer"):
+			case isStart(ci):
 				return "start"
+			}
+			if _, isGo := in.(*ssa.Go); isGo {
+				if mc, ok := ci.Common().Value.(*ssa.MakeClosure); ok {
+					if f, ok := mc.Fn.(*ssa.Function); ok {
+						for _, c2 := range callsIn(f) {
+							if n2 := CalleeName(c2); n2 == "(*net/http.Server).ListenAndServeTLS" {
+								return "start"
+							}
+						}
+					}
+				}
 			}
 			return ""
 		},
@@ -736,8 +795,9 @@ func (c *Ctx) mainFatal() {
 	sp.P = p
 	ts := sp.Walk(mainFn)
 	c.Count("paths_enumerated", len(ts))
+	c.Floor("startup-all-or-nothing", len(steps), 3, "fallible start-up steps in main")
 	for _, step := range steps {
-		short := step[strings.LastIndex(step, ".")+1:]
+		short := short[step]
 		seen, bad := false, ""
 		for _, t := range ts {
 			for i, it := range t.Items {
@@ -778,8 +838,11 @@ func (c *Ctx) mainFatal() {
 	// by the nil-error edges of all four steps
 	var starts []ssa.Instruction
 	instrsOf(mainFn, func(in ssa.Instruction) {
-		if ci, ok := in.(ssa.CallInstruction); ok && strings.HasSuffix(CalleeName(ci), "helios.startHTTPServer") {
-			starts = append(starts, in)
+		if ci, ok := in.(ssa.CallInstruction); ok {
+			if sp.Event(in, nil) == "start" {
+				_ = ci
+				starts = append(starts, in)
+			}
 		}
 	})
 	c.Check(len(starts) == 1, "startup-all-or-nothing", "cmd/helios.main/single-start", p.Pos(mainFn.Pos()), "the listener is started at exactly one site", fmt.Sprintf("%d start sites", len(starts)))
